@@ -134,7 +134,19 @@ func (ch c13) runCase(c *core.Ctx, env *hs.Env, k c13case, rng *core.Rng, idx in
 	}
 	// start the COPY
 	if k.Exec {
-		in := append(append(pg.Parse("", "copy", nil), pg.Bind("", "", nil, nil, nil)...), pg.Execute("", 0)...)
+		// the Bind's result-format codes concern result rows, not the COPY-in format the handler asks for
+		var rf []int16
+		switch idx % 4 {
+		case 1:
+			rf = []int16{1 - k.Format}
+		case 2:
+			rf = []int16{k.Format}
+		case 3:
+			for j := 0; j < k.NCols; j++ {
+				rf = append(rf, int16((idx+j)%2))
+			}
+		}
+		in := append(append(pg.Parse("", "copy", nil), pg.Bind("", "", nil, nil, rf)...), pg.Execute("", 0)...)
 		if !step("Parse/Bind/Execute", in, "12G") {
 			return
 		}
